@@ -242,6 +242,10 @@ Fixpoint imports_of (t : tree) (d : path) : option (list path) :=
 Record ctx := {
   c_gsrc : path;     (* GOPATH/src *)
   c_entry : path;    (* Dir(interp.name): directory of the entry file, [] for "_.go" *)
+  c_retry : path;    (* rootFromSourceLocation(): the root of the second pkgDir attempt — the directory
+                        of the input file relative to GOPATH/src when the process's working directory
+                        joined with the file's directory lies inside GOPATH/src, "" for "_.go"; any
+                        other location gives a root below which nothing exists, which behaves as "" *)
   c_tree : tree
 }.
 
@@ -289,7 +293,12 @@ Fixpoint y_load (c : ctx) (fuel : nat) (st : ystate) (rpath ip0 : path) : ystate
       | None =>
           let res :=
             if is_rel ip then Found (y_rel_dir (c_entry c) rpath ip) (y_rel_rpath rpath)
-            else y_pkg_dir (tree_stat (c_tree c)) (c_gsrc c) (S (length rpath)) rpath ip in
+            else match y_pkg_dir (tree_stat (c_tree c)) (c_gsrc c) (S (length rpath)) rpath ip with
+                 | NotFound =>
+                     (* "Try again, assuming a root dir at the source location": for any importer *)
+                     y_pkg_dir (tree_stat (c_tree c)) (c_gsrc c) (S (length (c_retry c))) (c_retry c) ip
+                 | r => r
+                 end in
           match res with
           | OutOfFuel => (st, Some EFuel)
           | NotFound => (st, Some ENotFound)
@@ -426,5 +435,10 @@ Definition fs_hasgo_dir (st hasgo : statfn) : Prop := forall p, hasgo p = true -
 
 Definition pth (x : string) : path := filter nonempty (split slash (s x)).
 Definition mkpkg (d : string) (imps : list string) : pkg := {| pdir := pth d; pimps := map pth imps |}.
+(** the context of a run whose working directory is the origin of all paths and whose entry file
+    is named relative to it: the retry root is the entry directory relative to GOPATH/src when it
+    lies strictly below GOPATH/src *)
+Definition retry_of (gsrc entry : path) : path :=
+  if is_prefix gsrc entry then skipn (length gsrc) entry else [].
 Definition mkctx (gsrc entry : string) (t : tree) : ctx :=
-  {| c_gsrc := pth gsrc; c_entry := pth entry; c_tree := t |}.
+  {| c_gsrc := pth gsrc; c_entry := pth entry; c_retry := retry_of (pth gsrc) (pth entry); c_tree := t |}.
